@@ -1,5 +1,7 @@
 package jet
 
+import "reflect"
+
 // ---- C09: include renders in place with the caller's variables; exec returns a value ----
 
 // H_C09_include: include renders the named template at that point with the includer's
@@ -428,4 +430,78 @@ func H_C09_sites2() {
 	}
 	vfNote(out)
 	vfAssert(out == "O"+want+"|Dfalse", "the call renders / evaluates as documented inside two nested constructs and leaks nothing back")
+}
+
+// H_C09_ctxForms: include / exec / includeIfExists with the template name written as a
+// literal or computed from '.' (a field of the data), and the context argument absent, a
+// string, a field of '.', the nil literal, or a missing map entry: the name is evaluated in
+// the CALLER's context; the target runs with exactly the given context - a given nil
+// context is nil, not the caller's - and the caller's '.' is back afterwards.
+//
+//gosym:reach include,exec,ifexists
+func H_C09_ctxForms() {
+	kind := ndChoice("kind", 3)
+	nameFromDot := ndBool("nameFromDot")
+	cf := ndChoice("ctx", 5)
+	type data struct{ Tpl, Exe, Item string }
+	d := data{"/sub/i.jet", "/sub/e.jet", "ITEM"}
+	ctxSrc := []string{"", `"C"`, `.Item`, `nil`, `mm["absent"]`}[cf]
+	wantCtx := []string{"DATA", "C", "ITEM", "nil", "nil"}[cf]
+	name := `"/sub/i.jet"`
+	if kind == 1 {
+		name = `"/sub/e.jet"`
+	}
+	if nameFromDot {
+		name = ".Tpl"
+		if kind == 1 {
+			name = ".Exe"
+		}
+	}
+	var call string
+	switch kind {
+	case 0:
+		call = `{{ include ` + name + ` ` + ctxSrc + ` }}`
+	case 1:
+		call = `[{{ exec(` + name + c08If(ctxSrc != "", ", "+ctxSrc) + `) }}]`
+	default:
+		call = `{{ if includeIfExists(` + name + c08If(ctxSrc != "", ", "+ctxSrc) + `) }}Y{{ end }}`
+	}
+	set := hxSet([]Option{WithSafeWriter(nil)},
+		"/main.jet", call+`|{{ desc() }}`,
+		"/sub/i.jet", `I[{{ desc() }}]`,
+		"/sub/e.jet", `noise{{ return desc() }}`,
+	)
+	vars := make(VarMap)
+	vars.Set("mm", map[string]string{"k": "v"})
+	vars.SetFunc("desc", func(a Arguments) reflect.Value {
+		c := a.Runtime().Context()
+		for c.IsValid() && (c.Kind() == reflect.Interface || c.Kind() == reflect.Ptr) && !c.IsNil() {
+			c = c.Elem()
+		}
+		switch {
+		case !c.IsValid() || ((c.Kind() == reflect.Interface || c.Kind() == reflect.Ptr) && c.IsNil()):
+			return reflect.ValueOf("nil")
+		case c.Kind() == reflect.String:
+			return reflect.ValueOf(c.String())
+		case c.Kind() == reflect.Struct:
+			return reflect.ValueOf("DATA")
+		}
+		return reflect.ValueOf("?")
+	})
+	out, err := hxExec(set, "/main.jet", vars, d)
+	vfAssert(err == nil, "renders")
+	var want string
+	switch kind {
+	case 0:
+		vfReach("include")
+		want = "I[" + wantCtx + "]"
+	case 1:
+		vfReach("exec")
+		want = "[" + wantCtx + "]"
+	default:
+		vfReach("ifexists")
+		want = "I[" + wantCtx + "]Y"
+	}
+	vfNote(out)
+	vfAssert(out == want+"|DATA", "the name is evaluated in the caller's context; the target gets exactly the given context; the caller's '.' is back afterwards")
 }
